@@ -1,4 +1,5 @@
 import PMH.Proofs.Dens
+import PMH.Proofs.DensTerm
 /-!
 # C09 — densification only copies populated bins, is idempotent, and reports an empty stream
 
@@ -108,5 +109,42 @@ theorem sketch_phase_set_semantics (large : K) (m : Nat) (t : TOps K G R) (hn : 
 
 /-- `reinit` = `new` (C13 for the densified sketchers) -/
 theorem reinit_eq_new (large : K) (s : Dens K) : s.reinit large = Dens.new large s.hsketch.size := rfl
+
+
+/-! ### termination of finishing on non-empty streams: almost sure under ideal probes, with a fuel bound
+
+Surely-termination cannot be a theorem (it depends on what the ChaCha12 probes hit).  Under the ideal-hash
+idealisation — probes of a bin independent and uniform on the `m` bins (`IdealDraws`) — it holds with
+probability 1, and the probability of exhausting a budget of `n` probes (passes) is at most `m (1 − 1/m)^n`
+(`Proofs/DensTerm.lean`; `idealOps` is an operations record whose generators read an i.i.d. uniform family, so no
+probabilistic hypothesis is left). -/
+section Termination
+open MeasureTheory PMH.DensSel PMH.DensTerm
+open scoped ENNReal
+variable {K G R : Type} [LinearOrder K] {m : Nat} [NeZero m]
+
+/-- **C09 (d)** optimal densification of a sketch with at least one populated bin returns almost surely -/
+theorem optimal_finishing_terminates_almost_surely (large : K) (o0 : DensOps K G R) (s0 : Dens K)
+    (hinv : DInv large m s0) (hpop : ∃ b, (V0 large m s0).pop b) :
+    ∀ᵐ ω ∂(Pcan m), ∃ fuel s', Dens.densifyOpt (idealOps m o0 ω) fuel s0 = .ok s' :=
+  idealOps_opt_terminates_ae m large o0 s0 hinv hpop
+
+/-- … and a budget of `n` probes per bin is exhausted with probability at most `m (1 − 1/m)^n` -/
+theorem optimal_finishing_fuel_bound (large : K) (o0 : DensOps K G R) (s0 : Dens K)
+    (hinv : DInv large m s0) (hpop : ∃ b, (V0 large m s0).pop b) (n : ℕ) :
+    Pcan m {ω | ¬ ∃ s', Dens.densifyOpt (idealOps m o0 ω) n s0 = .ok s'} ≤ m * (1 - 1 / (m : ℝ≥0∞)) ^ n :=
+  idealOps_opt_fuel_bound m large o0 s0 hinv hpop n
+
+/-- **C09 (d), reverse algorithm** -/
+theorem reverse_finishing_terminates_almost_surely (large : K) (o0 : DensOps K G R) (s0 : Dens K)
+    (hinv : DInv large m s0) (hpop : ∃ b, (V0 large m s0).pop b) :
+    ∀ᵐ ω ∂(Pcan m), ∃ fuel s', Dens.densifyRev (idealOps m o0 ω) fuel 1 s0 = .ok s' :=
+  idealOps_rev_terminates_ae m large o0 s0 hinv hpop
+
+theorem reverse_finishing_fuel_bound (large : K) (o0 : DensOps K G R) (s0 : Dens K)
+    (hinv : DInv large m s0) (hpop : ∃ b, (V0 large m s0).pop b) (n : ℕ) :
+    Pcan m {ω | ¬ ∃ s', Dens.densifyRev (idealOps m o0 ω) (n + 1) 1 s0 = .ok s'} ≤ m * (1 - 1 / (m : ℝ≥0∞)) ^ n :=
+  idealOps_rev_fuel_bound m large o0 s0 hinv hpop n
+end Termination
 
 end PMH.C09
